@@ -72,7 +72,8 @@ impl PixelDataReader for RleLosslessAdapter {
             let fragment = &src
                 .fragment(i)
                 .whatever_context("No pixel data found for frame")?;
-            let mut offsets = read_rle_header(fragment);
+            let mut offsets =
+                read_rle_header(fragment).whatever_context("Invalid RLE header")?;
             offsets.push(fragment.len() as u32);
 
             for sample_number in 0..samples_per_pixel {
@@ -80,7 +81,8 @@ impl PixelDataReader for RleLosslessAdapter {
                     // ii is 1, 0, 3, 2, 5, 4 for the example above
                     // This is where the segment order correction occurs
                     let ii = sample_number * bytes_per_sample + byte_offset;
-                    let segment = &fragment[offsets[ii] as usize..offsets[ii + 1] as usize];
+                    let segment = rle_segment(fragment, &offsets, ii)
+                        .whatever_context("Invalid RLE segment offsets")?;
                     let buff = io::Cursor::new(segment);
                     let (_, decoder) = PackBitsReader::new(buff, segment.len())
                         .whatever_context("Failed to read RLE segments")?;
@@ -111,7 +113,9 @@ impl PixelDataReader for RleLosslessAdapter {
                         .step_by(bytes_per_sample * samples_per_pixel)
                         .enumerate()
                     {
-                        dst[base_offset + dst_index] = decoded_segment[decoded_index];
+                        dst[base_offset + dst_index] = *decoded_segment
+                            .get(decoded_index)
+                            .whatever_context("RLE segment is too short")?;
                     }
                 }
             }
@@ -182,7 +186,7 @@ impl PixelDataReader for RleLosslessAdapter {
         let fragment = &src
             .fragment(frame as usize)
             .whatever_context("No pixel data found for frame")?;
-        let mut offsets = read_rle_header(fragment);
+        let mut offsets = read_rle_header(fragment).whatever_context("Invalid RLE header")?;
         offsets.push(fragment.len() as u32);
 
         for sample_number in 0..samples_per_pixel {
@@ -190,7 +194,8 @@ impl PixelDataReader for RleLosslessAdapter {
                 // ii is 1, 0, 3, 2, 5, 4 for the example above
                 // This is where the segment order correction occurs
                 let ii = sample_number * bytes_per_sample + byte_offset;
-                let segment = &fragment[offsets[ii] as usize..offsets[ii + 1] as usize];
+                let segment = rle_segment(fragment, &offsets, ii)
+                    .whatever_context("Invalid RLE segment offsets")?;
                 let buff = io::Cursor::new(segment);
                 let (_, decoder) = PackBitsReader::new(buff, segment.len())
                     .map_err(|e| Box::new(e) as Box<_>)
@@ -213,7 +218,9 @@ impl PixelDataReader for RleLosslessAdapter {
                     .step_by(bytes_per_sample * samples_per_pixel)
                     .enumerate()
                 {
-                    dst[base_offset + dst_index] = decoded_segment[decoded_index];
+                    dst[base_offset + dst_index] = *decoded_segment
+                        .get(decoded_index)
+                        .whatever_context("RLE segment is too short")?;
                 }
             }
         }
@@ -224,11 +231,28 @@ impl PixelDataReader for RleLosslessAdapter {
 // TODO(#125) implement `encode`
 
 // Read the RLE header and return the offsets
-fn read_rle_header(fragment: &[u8]) -> Vec<u32> {
-    let nr_segments = LittleEndian::read_u32(&fragment[0..4]);
+//
+// Returns `None` if the fragment is too short to hold the header
+// or the number of segments is not one that an RLE header can describe.
+fn read_rle_header(fragment: &[u8]) -> Option<Vec<u32>> {
+    let nr_segments = LittleEndian::read_u32(fragment.get(0..4)?);
+    if nr_segments > 15 {
+        return None;
+    }
     let mut offsets = vec![0; nr_segments as usize];
-    LittleEndian::read_u32_into(&fragment[4..4 * (nr_segments + 1) as usize], &mut offsets);
-    offsets
+    LittleEndian::read_u32_into(
+        fragment.get(4..4 * (nr_segments + 1) as usize)?,
+        &mut offsets,
+    );
+    Some(offsets)
+}
+
+// Retrieve the bytes of segment `ii`,
+// or `None` if the offsets in the header do not describe it.
+fn rle_segment<'a>(fragment: &'a [u8], offsets: &[u32], ii: usize) -> Option<&'a [u8]> {
+    let start = *offsets.get(ii)? as usize;
+    let end = *offsets.get(ii + 1)? as usize;
+    fragment.get(start..end)
 }
 
 /// PackBits Reader from the image-tiff crate
